@@ -41,16 +41,24 @@ META = {
                   "prefix and alias applied), prefixes concatenate outer-first, and flattening the modifiers "
                   "agrees with composing them on the documented forms (witnesses of disagreement elsewhere); a "
                   "module body is evaluated at most once per engine, and exactly once as soon as a request that "
-                  "gets as far as running needs it, whatever failed before. The model is hand-written; it is "
+                  "gets as far as running needs it, whatever failed before; the constants of the mangling and "
+                  "the fact that a file module's identity is its canonical path (try_canonicalize) are "
+                  "re-extracted from modules.rs on every run and checked against the model by a theorem. "
+                  "The model is hand-written; it is "
                   "tied to crates/steel-core/src/compiler/modules.rs on every run by evaluating generated module "
                   "trees (diamonds, chains, shared private and provided names, all modifier nestings, "
-                  "contract/out, re-exports, failing requests, several request orders) on a real Engine and "
+                  "contract/out on functions of 1-6 parameters with higher-order contracts and violating "
+                  "callbacks (both the specialised and the general path of contracts.scm), re-exports, module "
+                  "files in sub-directories required through different spellings of one path (./, dir/.., "
+                  "symbolic links), failing requests, several request orders) on a real Engine and "
                   "comparing bindings, module-internal views, error kinds, instantiation counters and the real "
                   "location of every private define (prefix ++ name) line by line.",
     "level_note": "Trusted: Lean kernel (axioms propext, Classical.choice, Quot.sound only), harness/driver/"
                   "comparison, the file system (module files do not change while an engine lives). Macros and "
                   "for-syntax provides/requires, built-in and resolver modules and the contract combinators "
-                  "themselves are exercised only through the generated programs, not modelled; unused-import "
+                  "themselves (contracts.scm) are in scope as far as the module boundary goes - a contracted export "
+                  "must reject violating flat arguments and violating callbacks outside the module and check "
+                  "nothing inside - and are exercised through the generated programs, not modelled; unused-import "
                   "pruning is modelled only as far as it decides which module tables a body refers to. Open "
                   "findings: K14c modifiers are flattened instead of composed (by design), K14d a mangled name "
                   "can be written as |##mm...| (the lexical hypothesis of mangle_not_user_writable is false for "
